@@ -1222,8 +1222,20 @@ int main(int argc, char **argv)
 	int horizon = 0;
 	int pfd;
 
+	FILE *cmd;
+	int cfd, nullfd;
+
 	(void)argc; (void)argv;
 	signal(SIGPIPE, SIG_DFL);
+	/* the protocol must not share a descriptor with anything the library may touch: commands are
+	 * read from a private copy of fd 0, and fd 0 itself becomes /dev/null (a scanner that falls
+	 * back to stdin then sees end of input instead of eating the explorer's commands) */
+	cfd = dup(0);
+	nullfd = open("/dev/null", O_RDONLY);
+	if (cfd < 0 || nullfd < 0 || dup2(nullfd, 0) < 0) return 98;
+	close(nullfd);
+	cmd = fdopen(cfd, "r");
+	if (!cmd) return 98;
 	pfd = dup(1);
 	if (pfd < 0) return 98;
 	out = fdopen(pfd, "w");
@@ -1234,7 +1246,7 @@ int main(int argc, char **argv)
 	if (getenv("VF_UNBUF")) unbuffered = 1;
 	if (getenv("VF_NOFDCHECK")) fdcheck = 0;
 
-	while ((len = getline(&line, &cap, stdin)) > 0) {
+	while ((len = getline(&line, &cap, cmd)) > 0) {
 		if (line[len - 1] == '\n') line[--len] = 0;
 		if (!in_case) {
 			char *copy = xstrdup(line);
